@@ -80,8 +80,12 @@ Fixpoint set_kid (k : nat) (c : node) (l : list (nat * node)) : list (nat * node
 Definition rl_orig (maxDepth depth : nat) : nat := maxDepth - depth + 1.   (* /repo as it is *)
 Definition rl_fixed (maxDepth depth : nat) : nat := maxDepth - depth - 1.  (* fixes/C19-rollout-depth.patch *)
 
+(* allocateActionNodes(n.children, s) / n.children.resize(A) *)
+Definition allocate (A : nat) (n : node) : node := Node (nN n) (bel n) (resize A (acts n)).
+
 Section Machine.
-  Variable A : nat.                   (* model_.getA() *)
+  Variable A : nat.                   (* model_.getA()  (POMCP: fixed action space) *)
+  Variable gA : nat -> nat.           (* MCTS: model_.getA(s); [fun _ => A] for a fixed action space *)
   Variable term : nat -> bool.        (* model_.isTerminal *)
   Variable disc : Q.                  (* model_.getDiscount() *)
   Variable rl : nat -> nat -> nat.    (* rollout length expression *)
@@ -105,8 +109,6 @@ Section Machine.
     Act an' (Qred (aV aNode + (rew - aV aNode) / inject_Z (Z.of_nat an'))%Q)
         (rets aNode ++ [rew]) kids'.
 
-  (* allocateActionNodes(n.children, s) / n.children.resize(A) *)
-  Definition allocate (n : node) : node := Node (nN n) (bel n) (resize A (acts n)).
 
   (* src: MDP/Algorithms/MCTS.hpp:simulate.  [fuel] only makes the recursion structural; it is
      never exhausted when fuel >= maxDepth - depth (Proofs: mcts_fuel_irrelevant).
@@ -128,7 +130,7 @@ Section Machine.
             let '(fr, tr2, st) := rollout (rl maxDepth depth) s1 1%Q 0%Q tr1 in
             (set_kid s1 node0 (kids aNode), Qred (rew + disc * fr)%Q, tr2, st)
           | Some c =>
-            let '(c', fr, tr2, st) := mcts_simulate fuel' maxDepth (depth + 1) (allocate c) s1 tr1 in
+            let '(c', fr, tr2, st) := mcts_simulate fuel' maxDepth (depth + 1) (allocate (gA s1) c) s1 tr1 in
             (set_kid s1 c' (kids aNode), Qred (rew + disc * fr)%Q, tr2, st)
           end
         else (kids aNode, rew, tr1, 0) in
@@ -154,7 +156,7 @@ Section Machine.
         | Some c =>
           let c1 := Node (nN c) (bel c ++ [s1]) (acts c) in   (* ot->second.belief.push_back(s1) *)
           if (depth + 1 <? maxDepth) && negb (term s1) then
-            let '(c', fr, tr2, st) := pomcp_simulate fuel' maxDepth (depth + 1) (allocate c1) s1 tr1 in
+            let '(c', fr, tr2, st) := pomcp_simulate fuel' maxDepth (depth + 1) (allocate A c1) s1 tr1 in
             (set_kid o c' (kids aNode), fr, tr2, st)
           else (set_kid o c1 (kids aNode), 0%Q, tr1, 0)
         end in
@@ -191,13 +193,13 @@ Section Machine.
 
   (* src: MCTS.hpp:sampleAction(s, horizon) *)
   Definition mcts_fresh (iters s h : nat) (tr : trace) :=
-    mcts_runSimulation iters h (allocate node0) s tr.
+    mcts_runSimulation iters h (allocate (gA s) node0) s tr.
 
   (* src: MCTS.hpp:sampleAction(a, s1, horizon).  Precondition of the C++: a < graph_.children.size() *)
   Definition mcts_advance (iters : nat) (g : node) (a s1 h : nat) (tr : trace) :=
     match find_kid s1 (kids (nth a (acts g) act0)) with
     | None => mcts_fresh iters s1 h tr
-    | Some c => mcts_runSimulation iters h (allocate c) s1 tr
+    | Some c => mcts_runSimulation iters h (allocate (gA s1) c) s1 tr
     end.
 
   (* src: POMCP.hpp:runSimulation — the root particle graph_.belief.at(generator(rand_)) is read
@@ -230,7 +232,7 @@ Section Machine.
     | Some c =>
       match bel c with
       | [] => pomcp_fresh iters particles h tr               (* lost track of the belief *)
-      | _ :: _ => pomcp_runSimulation iters h (allocate c) tr
+      | _ :: _ => pomcp_runSimulation iters h (allocate A c) tr
       end
     end.
 End Machine.
@@ -240,10 +242,10 @@ End Machine.
 Inductive mop := MFresh (s h : nat) | MAdvance (a s1 h : nat).
 Inductive pop := PFresh (particles : list nat) (h : nat) | PAdvance (a o h : nat) (particles : list nat).
 
-Definition mcts_op A term disc rl iters (g : node) (op : mop) (tr : trace) :=
+Definition mcts_op gA term disc rl iters (g : node) (op : mop) (tr : trace) :=
   match op with
-  | MFresh s h => mcts_fresh A term disc rl iters s h tr
-  | MAdvance a s1 h => mcts_advance A term disc rl iters g a s1 h tr
+  | MFresh s h => mcts_fresh gA term disc rl iters s h tr
+  | MAdvance a s1 h => mcts_advance gA term disc rl iters g a s1 h tr
   end.
 
 Definition pomcp_op A term disc rl iters (g : node) (op : pop) (tr : trace) :=
@@ -253,12 +255,12 @@ Definition pomcp_op A term disc rl iters (g : node) (op : pop) (tr : trace) :=
   end.
 
 (* a history of calls, each with the trace observed during it; returns the final tree *)
-Fixpoint mcts_session A term disc rl iters (g : node) (ops : list (mop * trace)) : node :=
+Fixpoint mcts_session gA term disc rl iters (g : node) (ops : list (mop * trace)) : node :=
   match ops with
   | [] => g
   | (op, tr) :: t =>
-    let '(g', _, _, _) := mcts_op A term disc rl iters g op tr in
-    mcts_session A term disc rl iters g' t
+    let '(g', _, _, _) := mcts_op gA term disc rl iters g op tr in
+    mcts_session gA term disc rl iters g' t
   end.
 
 Fixpoint pomcp_session A term disc rl iters (g : node) (ops : list (pop * trace)) : node :=
